@@ -2,7 +2,6 @@
    integer number w of wraps of M = fl(2 pi); sin is 1-Lipschitz and 2 pi periodic. *)
 From Coq Require Import ZArith QArith Qcanon Qreals Reals Lra Lia.
 From AL Require Import Base.CaseLib C19.Lib C19.Model C19.Spec.
-From Interval Require Import Tactic.
 Open Scope R_scope.
 
 Definition qr (x : Qc) : R := Q2R (this x).
@@ -68,14 +67,6 @@ Proof.
   replace (x - IZR w * M - (x + - IZR w * (2 * PI))) with (IZR w * (2 * PI - M)) by ring.
   apply Rle_refl.
 Qed.
-
-Lemma qr_two_pi_fl : qr two_pi_fl = 7074237752028440 / 1125899906842624.
-Proof.
-  unfold qr, two_pi_fl, qc. rewrite (Qeq_eqR _ _ (this_Q2Qc _)). unfold Q2R. cbn [Qnum Qden]. reflexivity.
-Qed.
-
-Theorem two_pi_fl_error : Rabs (2 * PI - qr two_pi_fl) <= 25 / 100000000000000000.
-Proof. rewrite qr_two_pi_fl. interval with (i_prec 90). Qed.
 
 (* sinusoid: argument c_n handed to sin vs the ideal phase x_n = phase + n*freq *)
 Theorem sinusoid_real freq phase n :
